@@ -16,7 +16,9 @@ R-C06.3   check_cfg runs check_cfg_linearity on every normal path and returns it
           every block of the CFG gets a scope (no filtering).
 R-C06.4   the borrow-shadowing check of visit_Assign looks at every place in the target.
 R-C06.5   leaf_places yields exactly the leaves of a struct/tuple place (c06_leaves.py, below).
-R-C06.6   every "used twice"/"not used" decision is taken inside a loop over the leaves (c06_leafwise.py).
+R-C06.6   "used twice"/"not used" are decided leaf by leaf: `_check_assign_targets` and `visit_PlaceNode` are interpreted with a
+          struct place whose linear leaf is unused / already used, together with the real Scope methods (c06_aggregate.py); the
+          remaining error sites lie inside a loop over the leaves (c06_leafwise.py).
 Not decided: soundness/completeness of the place-based liveness argument as a whole.
 """
 
@@ -271,6 +273,23 @@ def run(ctx: Ctx) -> None:
     c06_leaves.run(ctx)
 
     # ------------------------------------------------------------ R-C06.6 decisions per leaf
-    from . import c06_leafwise
-    c06_leafwise.run(ctx)
+    from . import c06_aggregate, c06_leafwise
+    covered: set[str] = set()
+    if c06_aggregate.run(ctx):
+        # the two entry points were interpreted with an aggregate place, helpers included: their raise sites (and those of the
+        # helpers they call) need no syntactic "inside a leaf loop" argument; the other sites keep the shape rule
+        from ..index import call_name as _cn, calls_in as _ci
+        covered = {"_check_assign_targets", "visit_PlaceNode"}
+        by_name = {f.node.name: f for f in idx.iter_funcs((c06_leafwise.LC,))}
+        todo = list(covered)
+        while todo:
+            f = by_name.get(todo.pop())
+            if f is None:
+                continue
+            for c in _ci(f.node):
+                nm = _cn(c)
+                if nm in by_name and nm not in covered and not nm.startswith("visit"):
+                    covered.add(nm)
+                    todo.append(nm)
+    c06_leafwise.run(ctx, covered)
 
